@@ -686,6 +686,15 @@ func BaseIntrinsics() map[string]IntrinsicFn {
 		return s
 	}
 	m["(time.Time).UnixNano"] = func(ex *Exec, fr *frame, a []Value) Value { return a[0].(Struct)[1] }
+	m["(time.Time).UnixMilli"] = func(ex *Exec, fr *frame, a []Value) Value {
+		return ex.ts.Bin(OSDiv, a[0].(Struct)[1].(*Term), ex.ts.BVConst(1000000, 64))
+	}
+	m["(time.Time).UnixMicro"] = func(ex *Exec, fr *frame, a []Value) Value {
+		return ex.ts.Bin(OSDiv, a[0].(Struct)[1].(*Term), ex.ts.BVConst(1000, 64))
+	}
+	m["(time.Time).Unix"] = func(ex *Exec, fr *frame, a []Value) Value {
+		return ex.ts.Bin(OSDiv, a[0].(Struct)[1].(*Term), ex.ts.BVConst(1000000000, 64))
+	}
 	m["(time.Time).UTC"] = func(ex *Exec, fr *frame, a []Value) Value { return a[0] }
 	m["time.Unix"] = func(ex *Exec, fr *frame, a []Value) Value {
 		t := ex.zero(ex.timeType()).(Struct)
